@@ -118,23 +118,6 @@ func resyncRO(metaPath, scratch string) (before, after state, err error) {
 	return before, before, err
 }
 
-// follow keeps the model in step with the implementation where they differ on
-// Put admission because of the C01 findings (not this property's business).
-func follow(rec *ev.Recorder) func(w *drv.World, s uni.Spec, model, real mm.Class) bool {
-	return func(w *drv.World, s uni.Spec, model, real mm.Class) bool {
-		for _, q := range []mm.Quirks{{FirstLockOnly: true}, {LockOverridesTombstone: true}, {FirstLockOnly: true, LockOverridesTombstone: true}} {
-			c := w.M.Clone()
-			c.Quirks = q
-			if c.Put(s, w.Epoch) == real {
-				w.M.Quirks = q
-				rec.Label("followed-c01-finding")
-				return true
-			}
-		}
-		return false
-	}
-}
-
 type caseCtx struct {
 	rec     *ev.Recorder
 	w       *drv.World
@@ -221,7 +204,6 @@ func TestC02Metabase(t *testing.T) {
 		}
 		defer func() { _ = b.Close() }()
 		w := drv.NewWorld(cat, b, ep)
-		w.OnAdmission = follow(rec)
 		applyKnown(rec, w)
 		cc := &caseCtx{rec: rec, w: w, bound: uint64(cat.NC*uni.NObjects + 1)}
 		defer finish(rec, w)
